@@ -367,3 +367,27 @@ func (r *renderer) join() string {
 	}
 	return sb.String()
 }
+
+// Tokens returns the minimal-style token strings of x (each token is one
+// lexical unit: names, QNames, variable references, numbers, literals,
+// operators, punctuation).
+func Tokens(x *Expr) []string {
+	r := &renderer{c: Minimal}
+	r.expr(x, 0, false)
+	out := make([]string, len(r.toks))
+	for i, t := range r.toks {
+		out[i] = t.s
+	}
+	return out
+}
+
+// JoinTokens glues token strings with the white space XPath's longest-token
+// rule requires and nothing else.
+func JoinTokens(toks []string) string {
+	r := &renderer{c: Minimal}
+	for _, s := range toks {
+		isNum := s != "" && strings.Trim(s, "0123456789.") == "" && s != "." && s != ".."
+		r.toks = append(r.toks, tok{s: s, isNum: isNum})
+	}
+	return r.join()
+}
